@@ -69,12 +69,6 @@ theorem cyclicFrom_sound [DecidableEq α] (deps : α → List α) (fuel : Nat) (
       obtain ⟨z, hz, hcz⟩ := this
       exact ⟨z, .step hy hz, hcz⟩
 
-/-- the length of the longest dependency chain below `x`, explored to depth `fuel` (used by the
-    correspondence to relate message size and time to the chain length) -/
-def depth (deps : α → List α) : Nat → α → Nat
-  | 0, _ => 0
-  | fuel + 1, x => (deps x).foldl (fun acc y => max acc (depth deps fuel y + 1)) 0
-
 /-- upper bound for the length of a cycle report that travelled through `chain` cells whose addresses
     are at most `addrLen` long: `"Cycle detected for <addr>:" + "\n- <addr>"` per cell in progress -/
 def cycleMsgBound (chain addrLen : Nat) : Nat := 20 + addrLen + chain * (addrLen + 3)
